@@ -8,12 +8,15 @@ package parser
 //@ mode int
 //@ implicit [C06]
 //
+// Wrap turns a token into a leaf node. [convertible] is established by the accepting predicates of
+// integer and float literals (parser.go acceptLit), which run the same conversion before Wrap is reached.
 // Wrap turns a token into a leaf node. Assumed about its input (established by the scanner while no
 // lexer error has been reported, see lexer/zz_contracts_verif.go kind_by_first): a string literal
 // token is at least its two quotes and begins with a quote.
 //@ func (tokenWrapper).Wrap [C06,C05]
 //@   requires dyntype(t) == typeid[token.Type]()
 //@   assumes[strlit_shape] strlitShape(t)
+//@   assumes[convertible] (t.(token.Type).Type == token.IntLit ==> atoiOK(t.(token.Type).Value)) && (t.(token.Type).Type == token.FloatLit ==> parseFloatOK(t.(token.Type).Value))
 //@   assumes[kind] token.EOL <= t.(token.Type).Type && t.(token.Type).Type <= token.NotSticky
 //@ pred strlitShape(t combinator.Token) bool := t.(token.Type).Type == token.StringLit ==> len(t.(token.Type).Value) >= 2 && strat(t.(token.Type).Value, 0) == '"'
 //
